@@ -313,6 +313,24 @@ def honoured(chk, rng, n):
         outs.append({"tid": tid, "lines": [], "sc": {"gravity": g, "shot": p, "cfg": cfgd}, "summ": {}, "outcome": "ok"})
         chk.stratum("gravity_default" if g == -32.17405 else "gravity_custom")
         chk.count(1, ("gravity", i))
+        # ... and the same two settings in the ZEROING path of the same calculator (its trial trajectories, hook H2): the
+        # vertical velocity changes by g x dt and the air-relative advance stays within the calculator's step there as well
+        recz = integ.Recorder(keep_integrate=False).install()
+        impl.outcome(calc.set_weapon_zero, shot, U.Yard(rng.choice([40, 90])))
+        recz.remove()
+        ics = [c_ for z_ in recz.zcalls for c_ in z_["integrate_calls"] if c_["last"]]
+        ms_ = cfgd["max_calc_step_size_feet"]
+        okz = bool(ics)
+        for c_ in ics:
+            for it in (c_["last"], c_["prev"]):
+                if it is None:
+                    continue
+                okz = okz and abs((it["post_v"].y - it["pre_v"].y) - g * it["dt"]) <= 1e-9 * abs(g * it["dt"]) + 1e-12
+                okz = okz and it["pre_v"].magnitude() * it["dt"] <= ms_ / 2.0 * (1 + 1e-9)
+        tid += 1
+        pairs.append({"tid": tid, "ev": "Pair", "clause": "C18.SettingNotHonouredWhileZeroing", "ok": bool(okz)})
+        outs.append({"tid": tid, "lines": [], "sc": {"gravity": g, "shot": p, "cfg": cfgd, "path": "zeroing"}, "summ": {}, "outcome": "ok"})
+        chk.stratum("zeroing_path_settings")
         # ---- limits: a calculator with custom limits vs the same shot on a default calculator
         lim = rng.choice([{"cMaximumDrop": -3.0}, {"cMinimumVelocity": 2000.0}, {"cMinimumAltitude": 995.0},
                           {"cMaximumDrop": -2.0, "cMinimumVelocity": 1500.0}])
@@ -407,7 +425,7 @@ def run(chk: core.Check, replay=None) -> None:
         replay_names(chk, cases, td)
     chk.sample({"name_case": cases[7]})
     chk.require_strata(["cfg_settings_dict_reused", "cfg_SetGlobalStep", "cfg_ResetGlobals", "cfg_NewCalc", "cfg_Use", "cfg_nonpositive_global_step",
-                        "cfg_use_with_global_changed", "gravity_custom", "limits_custom", "names_parse_unit", "names_set_pref",
+                        "cfg_use_with_global_changed", "gravity_custom", "zeroing_path_settings", "limits_custom", "names_parse_unit", "names_set_pref",
                         "names_value_with_prefix", "names_value_preferred_name", "names_config_file_preferred",
                         "names_config_file_step_units", "names_unknown"])
     chk.exhaustive = False
